@@ -4813,12 +4813,15 @@ impl Env {
         )
     }
     pub fn with_parent(env: &Rc<RefCell<Env>>) -> Rc<RefCell<Env>> {
-        Rc::new(RefCell::new(Env {
+        let e = Rc::new(RefCell::new(Env {
             vars: HashMap::new(),
             parent: Ok(Rc::clone(&env)),
             internal_stack: Vec::new(),
             allow_redeclaration: false,
-        }))
+        }));
+        #[cfg(all(betaveros_noulith_verif, not(feature = "parallel")))]
+        crate::verif_hooks::register_env(&e);
+        e
     }
     pub fn mut_top_env<T>(&self, f: impl FnOnce(&mut TopEnv) -> T) -> T {
         match &self.parent {
